@@ -83,7 +83,15 @@ def case_st(draw):
         elif k == "F":
             ops.append(("F",))
         elif k == "noise":
-            ops.append(("noise", bytes(b if b != 0x7E else 0x7F for b in draw(st.binary(min_size=1, max_size=20)))))
+            # inter-frame noise never contains a flag; a third of it is built from the protocol's special octets (escape 0x7D, the
+            # escaped forms 0x5D / 0x5E, ...) and a quarter ends in an escape octet directly before the next frame's start flag
+            style = draw(st.sampled_from(["random", "random", "special"]))
+            raw = draw(st.binary(min_size=1, max_size=20))
+            nz = bytes((b if b != 0x7E else 0x7F) for b in raw) if style == "random" else \
+                bytes([x for x in (SPECIAL[b % len(SPECIAL)] for b in raw) if x != 0x7E] or [0x7D])
+            if draw(st.integers(0, 3)) == 0:
+                nz = nz[:-1] + b"\x7d"
+            ops.append(("noise", nz))
         else:
             n = draw(st.sampled_from([buf, buf + 1, buf + 2, buf + 7, 2 * buf + 3, 5000]))
             fill = draw(st.sampled_from([0x55, 0x00, 0x7D, 0x7E, 0x20, 0x5E]))
